@@ -572,6 +572,205 @@ fn gen_ext(out: &mut dyn FnMut(String)) {
     }
 }
 
+// ---------------------------------------------------------------- robustness streams, part 4 (round 5): magnitude bands
+
+type MF = Vec<Vec<f64>>;
+/// (infinity-norm condition number, determinant) of a float matrix by Gauss–Jordan (only used to SELECT inputs)
+fn cond_det_f(m: &MF) -> (f64, f64) {
+    let n = m.len();
+    let mut a = m.clone();
+    let mut inv: MF = (0..n).map(|i| (0..n).map(|j| if i == j { 1. } else { 0. }).collect()).collect();
+    let mut det = 1f64;
+    for c in 0..n {
+        let p = (c..n).max_by(|&x, &y| a[x][c].abs().partial_cmp(&a[y][c].abs()).unwrap()).unwrap();
+        if a[p][c] == 0. { return (f64::INFINITY, 0.) }
+        if p != c { a.swap(c, p); inv.swap(c, p); det = -det; }
+        let d = a[c][c]; det *= d;
+        for j in 0..n { a[c][j] /= d; inv[c][j] /= d; }
+        for i in 0..n { if i != c { let f = a[i][c]; if f != 0. { for j in 0..n { a[i][j] -= f * a[c][j]; inv[i][j] -= f * inv[c][j]; } } } }
+    }
+    let norm = |x: &MF| x.iter().map(|r| r.iter().map(|v| v.abs()).sum::<f64>()).fold(0., f64::max);
+    (norm(m) * norm(&inv), det)
+}
+fn band_val(m: i64, e: i64, base: u32) -> f64 { if base == 2 { ldexp(m as f64, e) } else { format!("{m}e{e}").parse().unwrap() } }
+fn band_mat(m: &M, e: &M, base: u32) -> MF { m.iter().zip(e).map(|(r, er)| r.iter().zip(er).map(|(&x, &k)| band_val(x, k, base)).collect()).collect() }
+/// condition number after every column is brought to greatest entry 1 (what Gram–Schmidt sees: it commutes with column scalings)
+fn cond_cols_f(m: &MF) -> f64 {
+    let n = m.len();
+    let cm: Vec<f64> = (0..n).map(|c| (0..n).fold(0f64, |a, i| a.max(m[i][c].abs()))).collect();
+    if cm.iter().any(|&x| x == 0.) { return f64::INFINITY }
+    cond_det_f(&(0..n).map(|i| (0..n).map(|c| m[i][c] / cm[c]).collect()).collect()).0
+}
+
+/// exponents just below the thresholds a linear-algebra routine could plausibly carry (2^-10 < 1e-3, 2^-20 < 1e-6, 2^-27 < 1e-8,
+/// 2^-30 < 1e-9, 2^-34 < 1e-10, 2^-40 < 1e-12, 2^-44 < 1e-13, 2^-50 < 1e-15, 2^-54 < eps) and between them
+const TINY2: [i64; 18] = [-7, -10, -14, -17, -20, -24, -27, -30, -31, -34, -37, -40, -41, -44, -47, -50, -54, -60];
+const TINY10: [i64; 13] = [-3, -4, -5, -6, -7, -8, -9, -10, -11, -12, -13, -14, -16];
+const WIDE2: [i64; 16] = [-60, -50, -41, -40, -31, -30, -21, -20, -10, 10, 20, 30, 31, 40, 50, 60];
+fn tiny(rng: &mut Rng, base: u32) -> i64 { if base == 2 { *rng.pick(&TINY2) } else { *rng.pick(&TINY10) } }
+fn show_me(m: &M, e: &M) -> String { format!("{} {}", show_mat(m), show_mat(e)) }
+
+/// a well-conditioned matrix in which SOME entries are tiny but not zero (pattern `pat`): the multipliers of the elimination, single
+/// cofactors, single projections fall below every absolute threshold while the matrix as a whole is of ordinary scale
+fn diag_dominant(rng: &mut Rng, n: usize) -> M {
+    let lim = (8 / (n as i64 - 1)).max(1);
+    let mut m: M = (0..n).map(|i| (0..n).map(|j| if i == j { 0 } else { rng.range(-lim, lim) }).collect()).collect();
+    for i in 0..n { let s: i64 = m[i].iter().map(|x| x.abs()).sum(); m[i][i] = (s + 1 + rng.range(0, 2)).min(9) * if rng.below(2) == 0 { 1 } else { -1 }; }
+    m
+}
+fn band_family(rng: &mut Rng, n: usize, pat: usize, base: u32) -> (M, M) {
+    loop {
+        let mut m = match rng.below(3) { 0 => rand_conditioned(rng, n), 1 => perm_diag_dominant(rng, n), _ => pivot_forcing(rng, n) };
+        // lower part tiny: start from dominant diagonal entries (the strictly upper part keeps ordinary entries)
+        if pat == 1 || pat == 5 || pat == 6 { m = diag_dominant(rng, n); }
+        let mut e: M = vec![vec![0; n]; n];
+        let set = |m: &mut M, e: &mut M, i: usize, j: usize, k: i64, rng: &mut Rng| { if m[i][j] == 0 { m[i][j] = rng.range(1, 9) * if rng.below(2) == 0 { 1 } else { -1 }; } e[i][j] = k; };
+        match pat {
+            0 => { let i = rng.below(n); let j = (i + 1 + rng.below(n - 1)) % n; let k = tiny(rng, base); set(&mut m, &mut e, i, j, k, rng); }
+            1 => { for i in 0..n { for j in 0..i { let k = tiny(rng, base); set(&mut m, &mut e, i, j, k, rng); } } }
+            2 => { if det_exact(&m) == 0 { continue } for i in 0..n { for j in i + 1..n { let k = tiny(rng, base); set(&mut m, &mut e, i, j, k, rng); } } }
+            3 => { let (j, r) = (rng.below(n), rng.below(n)); for i in 0..n { if i != r { let k = tiny(rng, base); set(&mut m, &mut e, i, j, k, rng); } } if m[r][j] == 0 { m[r][j] = 7; } }
+            4 => { for i in 0..n { for j in 0..n { if i != j && rng.below(3) == 0 { let k = tiny(rng, base); set(&mut m, &mut e, i, j, k, rng); } } } }
+            5 => { for i in 0..n { for j in 0..i { let k = tiny(rng, base); set(&mut m, &mut e, i, j, k, rng); } } let p = non_identity_perm(rng, n); m = row_perm(&m, &p); e = row_perm(&e, &p); }
+            _ => { let k = tiny(rng, base); for i in 0..n { for j in 0..i { set(&mut m, &mut e, i, j, k, rng); } } }
+        }
+        let (cond, det) = cond_det_f(&band_mat(&m, &e, base));
+        if cond <= 1e3 && det.abs() >= 1e-3 { return (m, e) }
+    }
+}
+
+fn gen_bands(out: &mut dyn FnMut(String), seed: u64, thorough: bool) {
+    // own generator, far away in the counter sequence: `Rng::new(s)` and `Rng::new(s + 2)` are the SAME sequence shifted by two draws, and the
+    // rejection loops of the families re-synchronise them (seeds 1 and 3 produced identical band streams)
+    let rng = &mut Rng::new((seed ^ 0x5DEECE66D).wrapping_mul(0x2545F4914F6CDD1D).rotate_left(29));
+    // ---- 18a. solve / det with tiny-but-non-zero entries (seven patterns, base 2 and base 10), right-hand sides plain / tiny / banded
+    let reps = if thorough { 10 } else { 3 };
+    for n in 2..=6usize { for pat in 0..7usize { for base in [2u32, 10] { for r in 0..reps {
+        if n == 2 && pat == 6 { continue }
+        let (m, e) = band_family(rng, n, pat, base);
+        let a = show_me(&m, &e);
+        let zeros = |len: usize| vec![0i64; len];
+        out(format!("psolve {a} {} {} {base}", show_vec(&rand_rhs(rng, n, 1)), show_vec(&zeros(n))));
+        let k = 2 + rng.below(3);
+        // every column of the right-hand side on its own scale
+        let ce: Vec<i64> = (0..k).map(|c| if c == 0 { 0 } else if base == 2 { *rng.pick(&WIDE2) } else { tiny(rng, 10) }).collect();
+        out(format!("psolve {a} {} {} {base}", show_shape(&[n, k], &rand_rhs(rng, n, k)), show_shape(&[n, k], &(0..n * k).map(|p| ce[p % k]).collect::<Vec<i64>>())));
+        if r == 0 {
+            // single tiny entries in the right-hand side
+            out(format!("psolve {a} {} {} {base}", show_vec(&rand_rhs(rng, n, 1)), show_vec(&(0..n).map(|_| if rng.below(2) == 0 { tiny(rng, base) } else { 0 }).collect::<Vec<i64>>())));
+            out(format!("psolve {a} {} {} {base}", show_shape(&[n, 2], &rand_rhs(rng, n, 2)), show_shape(&[n, 2], &(0..2 * n).map(|_| if rng.below(3) == 0 { tiny(rng, base) } else { 0 }).collect::<Vec<i64>>())));
+        }
+        out(format!("pdet {a} {base}"));
+        if r == 0 && n <= 5 { out(format!("pqr {a} {base}")); }
+    } } } }
+    // ---- 18b. qr / det: every COLUMN (and every block of a stack) on its own scale; the matrix is well-conditioned once the columns are equilibrated
+    let reps = if thorough { 12 } else { 3 };
+    for n in 2..=6usize { for r in 0..reps { for fam in 0..3usize {
+        let m = loop { let m = match fam { 0 => rand_conditioned(rng, n), 1 => perm_diag_dominant(rng, n), _ => pivot_forcing(rng, n) };
+            if cond_cols_f(&band_mat(&m, &vec![vec![0; n]; n], 2)) <= 100. { break m } };
+        // one column tiny, all but one tiny, all different, decimal
+        let pools: [Vec<i64>; 4] = [
+            { let mut v = vec![0i64; n]; v[rng.below(n)] = *rng.pick(&TINY2); v },
+            { let k = rng.below(n); (0..n).map(|c| if c == k { 0 } else { *rng.pick(&TINY2) }).collect() },
+            (0..n).map(|_| *rng.pick(&WIDE2)).collect(),
+            (0..n).map(|_| if rng.below(2) == 0 { *rng.pick(&TINY10) } else { 0 }).collect(),
+        ];
+        for (pi, ce) in pools.iter().enumerate() {
+            let base = if pi == 3 { 10 } else { 2 };
+            let e: M = (0..n).map(|_| ce.clone()).collect();
+            out(format!("pqr {} {base}", show_me(&m, &e)));
+            if r == 0 { out(format!("pdet {} {base}", show_me(&m, &e))); }
+        }
+        // rows on their own scales (det only: Gram–Schmidt is not invariant under row scalings, the matrix would be ill-conditioned)
+        let re: M = (0..n).map(|_| vec![*rng.pick(&WIDE2); n]).collect();
+        out(format!("pdet {} 2", show_me(&m, &re)));
+    } } }
+    // stacks: block t scaled by 2^(e_t) / with its own column scales
+    for (cnt, n) in [(3usize, 2usize), (4, 3), (2, 4), (7, 2), (3, 5)] { for variant in 0..3 {
+        let mut ms: Vec<i64> = vec![]; let mut es: Vec<i64> = vec![];
+        for t in 0..cnt {
+            let m = loop { let m = if t % 2 == 0 { rand_conditioned(rng, n) } else { perm_diag_dominant(rng, n) }; if cond_cols_f(&band_mat(&m, &vec![vec![0; n]; n], 2)) <= 100. { break m } };
+            let be = if variant == 1 && t == 0 { 0 } else { *rng.pick(&WIDE2) };
+            let ce: Vec<i64> = (0..n).map(|_| if variant == 2 { *rng.pick(&TINY2) } else { be }).collect();
+            for i in 0..n { for j in 0..n { ms.push(m[i][j]); es.push(ce[j]); } }
+        }
+        let a = format!("{} {}", show_shape(&[cnt, n, n], &ms), show_shape(&[cnt, n, n], &es));
+        out(format!("pqr {a} 2")); out(format!("pdet {a} 2"));
+    } }
+    // ---- 18c. scale sweep: EVERY power of two 2^-60 … 2^60 through solve / qr / det / norm (model at the exact scaled rationals,
+    // exec also demands the exactly rescaled answer of the unscaled call)
+    let sweep: Vec<M> = vec![vec![vec![1, 2], vec![3, 4]], vec![vec![4, 1, 2], vec![1, 5, 1], vec![2, 1, 6]], pivot_forcing(rng, 3), rand_conditioned(rng, 4), perm_diag_dominant(rng, 5)];
+    for (mi, m) in sweep.iter().enumerate() {
+        let n = m.len();
+        let a = show_mat(m);
+        let (b1, b2) = (show_vec(&rand_rhs(rng, n, 1)), show_shape(&[n, 2], &rand_rhs(rng, n, 2)));
+        let v = show_vec(&nonzero_vals(rng, n + 2));
+        for k in -60i64..=60 {
+            if k == 0 || (!thorough && mi >= 3 && k % 2 != 0) { continue }
+            let sc = format!("2^{k}");
+            out(format!("xqr {a} f64/{sc}/1")); out(format!("xdet {a} f64/{sc}/1"));
+            out(format!("xsolve {a} {b1} f64/{sc}/{sc}")); out(format!("xsolve {a} {b2} f64/{sc}/1")); out(format!("xsolve {a} {b1} f64/1/{sc}"));
+            out(format!("xsolve {a} {b2} f64/{sc}/2^{}", -k));
+            let forms = [("none", "none"), ("fro", "none"), ("i1", "0"), ("inf", "-1"), ("i1", "0,1"), ("ninf", "1,0"), ("i3", "0"), ("i-1", "1"), ("i0", "0"), ("i2", "1")];
+            let (f1, f2) = (forms[(k + 60) as usize % 10], forms[(k + 63) as usize % 10]);
+            out(format!("xnorm {a} {} {} none f64/{sc}/1", f1.0, f1.1)); out(format!("xnorm {a} {} {} none f64/{sc}/1", f2.0, f2.1));
+            let vforms = ["none", "i1", "i2", "inf", "ninf", "i0", "i3", "i4", "i-1", "i-2", "i5"];
+            out(format!("xnorm {v} {} none none f64/{sc}/1", vforms[(k + 60) as usize % 11])); out(format!("xnorm {v} {} none none f64/{sc}/1", vforms[(k + 64) as usize % 11]));
+        }
+    }
+    // ---- 18d / 16. norm over entries of very different magnitude and over the exact values a scalar kernel could special-case
+    let all_ords = ["none", "i0", "i1", "i2", "i3", "i4", "i5", "i-1", "i-2", "i-3", "inf", "ninf"];
+    // mixed bands: vectors and matrices, every order
+    for len in [2usize, 3, 5, 8] { for r in 0..(if thorough { 6 } else { 2 }) { for base in [2u32, 10] {
+        let m: Vec<i64> = (0..len).map(|_| *rng.pick(&[-9i64, -7, -5, -3, -2, -1, 1, 2, 3, 4, 6, 8, 9])).collect();
+        let e: Vec<i64> = (0..len).map(|i| if (i + r) % 2 == 0 { 0 } else if base == 2 { *rng.pick(&WIDE2) } else { tiny(rng, 10) }).collect();
+        let a = format!("{} {} {base}", show_vec(&m), show_vec(&e));
+        for o in all_ords { out(format!("pnorm {a} {o} none none")); }
+        out(format!("pnorm {a} s{} 0 none", hex("2"))); out(format!("pnorm {a} S{} -1 true", hex("-1")));
+    } } }
+    for (rws, cls) in [(2usize, 2usize), (2, 3), (3, 3), (4, 2)] { for base in [2u32, 10] {
+        let cnt = rws * cls;
+        let m: Vec<i64> = (0..cnt).map(|_| *rng.pick(&[-9i64, -7, -5, -3, -2, -1, 1, 2, 3, 4, 6, 8, 9])).collect();
+        let e: Vec<i64> = (0..cnt).map(|_| if rng.below(2) == 0 { 0 } else if base == 2 { *rng.pick(&WIDE2) } else { tiny(rng, 10) }).collect();
+        let a = format!("{} {} {base}", show_shape(&[rws, cls], &m), show_shape(&[rws, cls], &e));
+        for (o, ax) in [("none", "none"), ("fro", "none"), ("i1", "none"), ("inf", "none"), ("i-1", "0,1"), ("ninf", "1,0"), ("i1", "0"), ("i2", "1"), ("inf", "-1"), ("ninf", "0"), ("i0", "1"), ("i3", "0"), ("i-1", "1"), ("i-2", "0")] {
+            out(format!("pnorm {a} {o} {ax} none"));
+        }
+    } }
+    // exact values: every integer -1100..=1100 (one- and two-element vectors, orders rotating), the mathematical constants with their
+    // negatives and reciprocals, every power of two 2^-1074 … 2^1023 with its two neighbours; orders whose powers stay inside the f64 range
+    let one = |x: f64| { let (m, e) = decomp(x); format!("1:{m} 1:{e} 2") };
+    let two = |x: f64, y: f64| { let ((m, e), (m2, e2)) = (decomp(x), decomp(y)); format!("2:{m},{m2} 2:{e},{e2} 2") };
+    for (idx, i) in (-1100i64..=1100).enumerate() {
+        if !thorough && i.abs() > 130 && idx % 4 != 0 { continue }
+        let x = i as f64;
+        out(format!("pnorm {} {} none none", one(x), all_ords[idx % 12]));
+        out(format!("pnorm {} {} none none", two(x, 3.), all_ords[(idx + 5) % 12]));
+        if thorough { out(format!("pnorm {} {} none none", two(4., x), all_ords[(idx + 7) % 12])); }
+    }
+    use std::f64::consts::*;
+    let consts = [E, PI, LN_2, LN_10, LOG2_E, LOG10_E, LOG2_10, LOG10_2, SQRT_2, FRAC_1_SQRT_2, FRAC_PI_2, FRAC_PI_3, FRAC_PI_4, FRAC_PI_6, FRAC_PI_8, FRAC_1_PI, FRAC_2_PI, FRAC_2_SQRT_PI, TAU,
+        f64::EPSILON, 1. + f64::EPSILON, 1. - f64::EPSILON / 2., 0.1, 0.5, 1.5, 1e-7, 1e-12, 1e12, 1e-9, 1e9, 1e-6, 1e-15, 1e15, 1e100, 1e-100, (f32::MAX as f64), (f32::MIN_POSITIVE as f64), 16777216., 16777217., 9007199254740992., 9007199254740993f64];
+    for &c in &consts { for x in [c, -c, 1. / c] {
+        for o in all_ords { if (o == "i5" || o == "i4" || o == "i-3") && !(1e-60..1e60).contains(&x.abs()) { continue } out(format!("pnorm {} {o} none none", one(x))); }
+        for o in ["none", "i1", "i2", "inf", "ninf", "i3", "i-1"] { out(format!("pnorm {} {o} none none", two(x, 1.))); out(format!("pnorm {} {o} none none", two(E, x))); }
+    } }
+    for (idx, k) in (-1074i64..=1023).enumerate() {
+        let p = ldexp(1., k);
+        let mut xs = vec![p];
+        if k > -1022 { xs.push(f64::from_bits(p.to_bits() + 1)); xs.push(f64::from_bits(p.to_bits() - 1)); }
+        for (xi, &x) in xs.iter().enumerate() {
+            if !thorough && (idx + xi) % 3 != 0 && k.abs() > 64 { continue }
+            // orders 1 / inf / -inf / 0 reproduce the value (or count it) over the whole range; squares and cubes where they stay finite and normal
+            let wide = ["i1", "inf", "ninf", "i0"];
+            out(format!("pnorm {} {} none none", one(x), wide[(idx + xi) % 4]));
+            out(format!("pnorm {} {} none none", two(x, -x), wide[(idx + xi + 1) % 4]));
+            if k.abs() <= 500 { out(format!("pnorm {} {} none none", one(x), ["none", "i2", "i-1", "i-2"][(idx + xi) % 4])); out(format!("pnorm {} none none none", two(x, x))); }
+            if k.abs() <= 200 { out(format!("pnorm {} {} none none", one(x), ["i3", "i4", "i5", "i-3"][(idx + xi) % 4])); }
+        }
+    }
+}
+
 fn gen(tier: &str, seed: u64, out: &mut dyn FnMut(String)) {
     let thorough = tier == "thorough";
     let mut rng = Rng::new(seed);
@@ -592,6 +791,12 @@ fn gen(tier: &str, seed: u64, out: &mut dyn FnMut(String)) {
     out("solve 3,3:5,-1,0,1,6,2,2,1,7 3:1,2,3".into());
     out("norm i12001+-6001 none none none".into());
     out("norm i1500,3,3+-6751 none none none".into());
+    // round-5 seeded changes: entries of order 1e-7 (an absolute test on u.u in Gram–Schmidt), a sub-pivot entry of 5e-10 (multipliers
+    // below an absolute threshold): magnitude bands, every entry with its own exact scale
+    out("xqr 2,2:1,2,3,4 f64/10^-7/1".into());
+    out("pqr 3,3:4,1,2,1,5,1,2,1,6 3,3:-7,0,-7,-7,0,-7,-7,0,-7 10".into());
+    out("psolve 2,2:1,2,5,1 2,2:0,0,-10,0 2:3,1 2:0,0 10".into());
+    out("psolve 3,3:3,1,2,4,1,1,2,3,1 3,3:-10,0,0,0,0,0,-10,0,0 3,2:1,2,3,-1,5,7 3,2:0,0,0,0,-1,0 10".into());
     gen_ext(out);
     // ---- exhaustive small scope
     // every 2x2 matrix over -2..2: det, elimination, row exchange, product with a fixed partner, solve (vector, 1, 2, 3 columns), qr
@@ -667,6 +872,9 @@ fn gen(tier: &str, seed: u64, out: &mut dyn FnMut(String)) {
     // ---- robustness streams, part 2: hidden state (look-alike matrices, colliding shapes, refused-then-valid, types back to back), huge inputs
     gen_hidden_state(out, &mut rng, thorough);
     gen_huge(out, &mut rng, thorough);
+    // ---- robustness streams, part 4: magnitude bands (tiny-but-non-zero entries, columns / blocks on their own scales, every power of
+    // two as a uniform scale, exact special values through norm)
+    gen_bands(out, seed, thorough);
     // ---- malformed
     for line in [
         "solve 2,3:1,2,3,4,5,6 2:1,2", "solve 3,2:1,2,3,4,5,6 3:1,2,3", "solve 4:1,2,3,4 2:1,2", "solve 1,1:5 1:10", "solve 2,2,2:1,2,3,4,5,6,7,9 2:1,2",
@@ -702,7 +910,16 @@ fn arr_f64(s: &str) -> Option<Array<f64>> {
 }
 fn parse_rat(s: &str) -> Option<f64> {
     let (n, d) = s.split_once('/')?;
-    Some(n.parse::<f64>().ok()? / d.parse::<f64>().ok()?)
+    // numerators / denominators beyond the f64 range (2^-1074 has 324 digits): the quotient of the 25 leading digits, the decimal
+    // exponent added in the TEXT of the quotient so that the final rounding (also into the subnormal range) is the decimal parser's
+    let digits = |t: &str| t.trim_start_matches('-').len();
+    if digits(n).max(digits(d)) <= 290 { return Some(n.parse::<f64>().ok()? / d.parse::<f64>().ok()?) }
+    let lead = |t: &str| -> Option<(f64, i64)> { let keep = t.len().min(26); Some((t[..keep].parse::<f64>().ok()?, (t.len() - keep) as i64)) };
+    let ((nl, ne), (dl, de)) = (lead(n)?, lead(d)?);
+    if nl == 0. { return Some(0.) }
+    let q = format!("{:e}", nl / dl);
+    let (mant, ex) = q.split_once('e')?;
+    format!("{mant}e{}", ex.parse::<i64>().ok()? + ne - de).parse::<f64>().ok()
 }
 /// `ok <shape>:<rat>,<rat>` -> (shape, values)
 fn parse_expected_arr(body: &str) -> Option<(Vec<usize>, Vec<f64>)> {
@@ -744,6 +961,28 @@ fn to_verdict(r: Result<String, (String, String)>) -> Option<Verdict> {
 
 fn mat_of(s: &str) -> (usize, Vec<f64>) { let (shape, e) = parse_arr_raw(s); (shape[0], e.into_iter().map(|x| x as f64).collect()) }
 
+/// residual bound of an f64 solve: "to rounding accuracy".  Elimination with partial pivoting is backward stable, so whatever the
+/// condition number |A x - b| stays within a small multiple of eps * (n |A| |x| + |b|); 1e-13 is ~450 eps (the largest ratio observed on
+/// the pinned tree over all streams is below 3e-15, see claims.d).  Judged COLUMN BY COLUMN of the right-hand side (the columns are solved
+/// independently), so a column of tiny entries is not hidden behind a column of ordinary ones.
+const RES_TOL: f64 = 1e-13;
+fn residual_cols(n: usize, av: &[f64], xv: &[f64], bv: &[f64], tol: f64, slack: f64) -> Result<(), String> {
+    if bv.len() != xv.len() || n == 0 || bv.len() % n != 0 || av.len() != n * n { return Err("solution has another element count than the right-hand side".into()) }
+    let k = bv.len() / n;
+    let na = (0..n).map(|i| (0..n).map(|t| av[i * n + t].abs()).sum::<f64>()).fold(0., f64::max);
+    for c in 0..k {
+        let nx = (0..n).fold(0f64, |m, t| m.max(xv[t * k + c].abs()));
+        let nb = (0..n).fold(0f64, |m, i| m.max(bv[i * k + c].abs()));
+        if !nx.is_finite() { return Err(format!("solution column {c} is not finite")) }
+        for i in 0..n {
+            let r: f64 = (0..n).map(|t| av[i * n + t] * xv[t * k + c]).sum::<f64>() - bv[i * k + c];
+            let bound = tol * (na * nx * n as f64 + nb) + slack;
+            if !(r.abs() <= bound) { return Err(format!("residual (A x - b)[{i}][{c}] = {r:e} exceeds rounding accuracy ({bound:e})")) }
+        }
+    }
+    Ok(())
+}
+
 fn exec_solve(args: &[&str], expected: &str) -> Option<Verdict> {
     let (a, b) = (arr_f64(args[0])?, arr_f64(args[1])?);
     if b.ndim().ok()? == 0 { // `other.get_shape()[0]` on a 0-d right-hand side: the outcome class belongs to C09, not to this property
@@ -758,18 +997,11 @@ fn exec_solve(args: &[&str], expected: &str) -> Option<Verdict> {
     let exact_err = expected == "err SingularMatrix";
     let first = cmp_arr(&real, expected, exact_err);
     if let (Ok(_), Ok(x)) = (&first, &real) {
-        // (ii) residual oracle on the code's own answer: ||A x - b||_inf <= 1e-9 * (||A||_inf ||x||_inf + ||b||_inf)
+        // (ii) residual oracle on the code's own answer, per column: |A x - b| <= 1e-13 * (n ||A||_inf ||x||_inf + ||b||_inf)
         let (n, av) = mat_of(args[0]);
         let bv: Vec<f64> = parse_arr_raw(args[1]).1.into_iter().map(|v| v as f64).collect();
         let xv = x.get_elements().unwrap();
-        let k = bv.len() / n;
-        let na = (0..n).map(|i| (0..n).map(|t| av[i * n + t].abs()).sum::<f64>()).fold(0., f64::max);
-        let nx = xv.iter().fold(0f64, |m, v| m.max(v.abs()));
-        let nb = bv.iter().fold(0f64, |m, v| m.max(v.abs()));
-        for i in 0..n { for c in 0..k {
-            let r: f64 = (0..n).map(|t| av[i * n + t] * xv[t * k + c]).sum::<f64>() - bv[i * k + c];
-            if !(r.abs() <= TOL * (na * nx * n as f64 + nb)) { return mismatch(show_f(x), format!("residual (A x - b)[{i}][{c}] = {r:e}")) }
-        } }
+        if let Err(d) = residual_cols(n, &av, &xv, &bv, RES_TOL, 0.) { return mismatch(show_f(x), d) }
     }
     to_verdict(first)
 }
@@ -975,12 +1207,14 @@ trait El: NumericOps {
     const RTOL: f64;
     /// the same for values the model has in closed form (sums, maxima, one square root)
     const RTOL_TIGHT: f64;
+    /// residual of solve relative to n |A| |x| + |b| (the crate eliminates in f64 whatever the element type; f32 rounds the answer once)
+    const RES: f64;
     fn of(v: f64) -> Self { <Self as Numeric>::from_f64(v) }
 }
-impl El for f64 { const INT: bool = false; const RTOL: f64 = TOL; const RTOL_TIGHT: f64 = 1e-12; }
-impl El for f32 { const INT: bool = false; const RTOL: f64 = 2e-5; const RTOL_TIGHT: f64 = 2e-6; }
-impl El for i32 { const INT: bool = true; const RTOL: f64 = 0.; const RTOL_TIGHT: f64 = 0.; }
-impl El for i64 { const INT: bool = true; const RTOL: f64 = 0.; const RTOL_TIGHT: f64 = 0.; }
+impl El for f64 { const INT: bool = false; const RTOL: f64 = TOL; const RTOL_TIGHT: f64 = 1e-12; const RES: f64 = RES_TOL; }
+impl El for f32 { const INT: bool = false; const RTOL: f64 = 2e-5; const RTOL_TIGHT: f64 = 2e-6; const RES: f64 = 2e-6; }
+impl El for i32 { const INT: bool = true; const RTOL: f64 = 0.; const RTOL_TIGHT: f64 = 0.; const RES: f64 = 0.; }
+impl El for i64 { const INT: bool = true; const RTOL: f64 = 0.; const RTOL_TIGHT: f64 = 0.; const RES: f64 = 0.; }
 
 #[derive(Clone, Copy)]
 struct Scale { v: f64, pow2: bool }
@@ -1036,6 +1270,10 @@ fn cmp_arr_t<T: El>(real: &Result<Array<T>, ArrayError>, expected: &str, exact_e
     }
 }
 
+/// the scale-equivariance oracles apply to f64 and an exactly representable scale other than 1
+const EQV_TOL: f64 = 1e-13;
+fn equivariant<T: El>(s: Scale) -> bool { !T::INT && T::RTOL == TOL && s.pow2 && s.v != 1. }
+
 fn x_det<T: El>(a_s: &str, v: &Variant, expected: &str) -> Option<Verdict> {
     let a = arr_t::<T>(a_s, v.sa.v)?;
     let real = match std::panic::catch_unwind(std::panic::AssertUnwindSafe(|| a.det())) { Ok(r) => r, Err(_) => return Some(compare_default("panic".into(), expected)) };
@@ -1050,6 +1288,15 @@ fn x_det<T: El>(a_s: &str, v: &Variant, expected: &str) -> Option<Verdict> {
             let m: M = blk.chunks(n).map(|r| r.to_vec()).collect();
             let exact = det_exact(&m) as f64 * unit;
             if !close_t::<T>(c.to_f64(), exact, unit, false, 0.) { return mismatch(show_t(d), format!("matrix {t}: det {:e}, exact integer determinant x scale^n {exact:e}", c.to_f64())) }
+        }
+        // scale equivariance (power-of-two scale, exact in f64): det(s A) = s^n det(A) to the last bits
+        if equivariant::<T>(v.sa) && unit.is_normal() {
+            if let Some(Ok(d0)) = arr_t::<T>(a_s, 1.).map(|p| p.det()) {
+                for (t, (c, c0)) in d.get_elements().unwrap().iter().zip(d0.get_elements().unwrap()).enumerate() {
+                    let (c, w) = (c.to_f64(), c0.to_f64() * unit);
+                    if !((c - w).abs() <= EQV_TOL * w.abs()) { return mismatch(show_t(d), format!("matrix {t}: det(s A) = {c:e}, s^n det(A) = {w:e} (s = {:e})", v.sa.v)) }
+                }
+            }
         }
     }
     to_verdict(first)
@@ -1068,19 +1315,9 @@ fn x_solve<T: El>(a_s: &str, b_s: &str, v: &Variant, expected: &str) -> Option<V
         let av: Vec<f64> = a.get_elements().unwrap().iter().map(|e| e.to_f64()).collect();
         let bv: Vec<f64> = b.get_elements().unwrap().iter().map(|e| e.to_f64()).collect();
         let xv: Vec<f64> = x.get_elements().unwrap().iter().map(|e| e.to_f64()).collect();
-        if bv.len() != xv.len() || n == 0 || bv.len() % n != 0 { return Err("solution has another element count than the right-hand side".into()) }
-        let k = bv.len() / n;
-        let na = (0..n).map(|i| (0..n).map(|t| av[i * n + t].abs()).sum::<f64>()).fold(0., f64::max);
-        let nx = xv.iter().fold(0f64, |m, v| m.max(v.abs()));
-        let nb = bv.iter().fold(0f64, |m, v| m.max(v.abs()));
-        // integer element types: the solution is truncated, each component may be off by one unit
-        let tol = if T::INT { 0. } else { T::RTOL * (na * nx * n as f64 + nb) };
-        let slack = if T::INT { na } else { 0. };
-        for i in 0..n { for c in 0..k {
-            let r: f64 = (0..n).map(|t| av[i * n + t] * xv[t * k + c]).sum::<f64>() - bv[i * k + c];
-            if !(r.abs() <= tol + slack) { return Err(format!("residual (A x - b)[{i}][{c}] = {r:e}")) }
-        } }
-        Ok(())
+        // integer element types: the solution is truncated, each component may be off by one unit; f64: rounding level, per column
+        let na = (0..n).map(|i| (0..n).map(|t| av.get(i * n + t).map_or(0., |v| v.abs())).sum::<f64>()).fold(0., f64::max);
+        residual_cols(n, &av, &xv, &bv, if T::INT { 0. } else { T::RES }, if T::INT { na } else { 0. })
     };
     if square && expected == "err SingularMatrix" {
         let m: M = aints.chunks(n).map(|r| r.to_vec()).collect();
@@ -1102,7 +1339,26 @@ fn x_solve<T: El>(a_s: &str, b_s: &str, v: &Variant, expected: &str) -> Option<V
     let exact_err = expected == "err SingularMatrix";
     let unit = v.sb.v / v.sa.v;
     let first = cmp_arr_t(&real, expected, exact_err, unit, 1.);
-    if let (Ok(_), Ok(x)) = (&first, &real) { if let Err(d) = residual_ok(x) { return mismatch(show_t(x), d) } }
+    if let (Ok(_), Ok(x)) = (&first, &real) {
+        if let Err(d) = residual_ok(x) { return mismatch(show_t(x), d) }
+        // scale equivariance: solve(sa A, sb b) = (sb / sa) solve(A, b) to the last bits for power-of-two scales (the pivots, multipliers
+        // and substitutions are the same numbers up to the exponent)
+        if !T::INT && T::RTOL == TOL && v.sa.pow2 && v.sb.pow2 && (v.sa.v != 1. || v.sb.v != 1.) {
+            if let (Some(a0), Some(b0)) = (arr_t::<T>(a_s, 1.), arr_t::<T>(b_s, 1.)) { if let Ok(x0) = a0.solve(&b0) {
+                let (xv, x0v): (Vec<f64>, Vec<f64>) = (x.get_elements().unwrap().iter().map(|e| e.to_f64()).collect(), x0.get_elements().unwrap().iter().map(|e| e.to_f64()).collect());
+                if xv.len() == x0v.len() && n > 0 {
+                    let k = xv.len() / n;
+                    for c in 0..k {
+                        let cm = col_max(n, k, &x0v, c) * unit;
+                        for i in 0..n {
+                            let w = x0v[i * k + c] * unit;
+                            if !((xv[i * k + c] - w).abs() <= EQV_TOL * cm) { return mismatch(show_t(x), format!("x[{i}][{c}] = {:e}, but (sb/sa) * solve(A, b) = {w:e} for the unscaled system", xv[i * k + c])) }
+                        }
+                    }
+                }
+            } }
+        }
+    }
     to_verdict(first)
 }
 
@@ -1163,6 +1419,16 @@ fn x_norm<T: El>(args: &[&str], v: &Variant, expected: &str) -> Option<Verdict> 
                     else { None };
                 if let Some(w) = want_v { if !close_t::<T>(re[0].to_f64(), w, unit, true, 0.) { return mismatch(observed, format!("definition gives {w:e}")) } }
             }
+            // scale equivariance: norm(s A) = s norm(A) (order 0 counts: unchanged) for a power-of-two scale
+            if equivariant::<T>(v.sa) {
+                if let Some(Ok(r0)) = arr_t::<T>(args[0], 1.).map(|p| call_norm(&p, args[1], &axis, keep)) {
+                    let zero_ord = args[1] == "i0" || args[1].strip_prefix(['s', 'S']).map_or(false, |h| hex_text(h).parse::<i64>() == Ok(0));
+                    for (p, (c, c0)) in re.iter().zip(r0.get_elements().unwrap()).enumerate() {
+                        let (c, w) = (c.to_f64(), if zero_ord { c0.to_f64() } else { c0.to_f64() * unit });
+                        if !((c - w).abs() <= EQV_TOL * w.abs()) { return mismatch(observed, format!("element {p}: norm(s A) = {c:e}, s norm(A) = {w:e} (s = {unit:e})")) }
+                    }
+                }
+            }
             Some(Verdict::Match(observed))
         }
     }
@@ -1183,6 +1449,7 @@ fn x_qr<T: El>(a_s: &str, v: &Variant, expected: &str) -> Option<Verdict> {
     // f32 Gram–Schmidt: the factors carry the rounding of the element type times the (bounded) condition number
     let tol = if T::RTOL > TOL { 50. * T::RTOL } else { TOL };
     let av_all: Vec<f64> = a.get_elements().unwrap().iter().map(|x| x.to_f64()).collect();
+    let plain = if equivariant::<T>(v.sa) { arr_t::<T>(a_s, 1.).and_then(|p| p.qr().ok()) } else { None };
     let mut open = false;
     for (t, ((q, r), e)) in pairs.iter().zip(&exp).enumerate() {
         let parts: Vec<&str> = e.split('|').collect();
@@ -1204,8 +1471,188 @@ fn x_qr<T: El>(a_s: &str, v: &Variant, expected: &str) -> Option<Verdict> {
             let qr: f64 = (0..n).map(|w| qv[i * n + w] * rv[w * n + k]).sum();
             if !((qr - av[i * n + k]).abs() <= tol * scale * scale * s) { return mismatch(observed, format!("pair {t}: (Q R)[{i}][{k}] = {qr:e}, A = {:e}", av[i * n + k])) }
         } }
+        // scale equivariance: qr(s A) has the same Q and s R (power-of-two scale, exact in f64)
+        if let Some(pl) = &plain { if let Some((q0, r0)) = pl.get(t) {
+            let (q0, r0): (Vec<f64>, Vec<f64>) = (q0.get_elements().unwrap().iter().map(|x| x.to_f64()).collect(), r0.get_elements().unwrap().iter().map(|x| x.to_f64()).collect());
+            if q0.len() == n * n && r0.len() == n * n { for p in 0..n * n {
+                if !((qv[p] - q0[p]).abs() <= EQV_TOL) { return mismatch(observed, format!("pair {t}: Q[{}][{}] = {:e}, but {:e} for the unscaled matrix", p / n, p % n, qv[p], q0[p])) }
+                if !((rv[p] - r0[p] * s).abs() <= EQV_TOL * scale * s) { return mismatch(observed, format!("pair {t}: R[{}][{}] = {:e}, but s R = {:e} for the unscaled matrix", p / n, p % n, rv[p], r0[p] * s)) }
+            } }
+        } }
     }
     if open { Some(Verdict::Open(observed)) } else { Some(Verdict::Match(observed)) }
+}
+
+// ---------------------------------------------------------------- magnitude bands (round 5): every ENTRY carries its own exact scale
+
+/// m * 2^e without an intermediate overflow / underflow (the result is representable for every pair the generator emits)
+fn ldexp(m: f64, e: i64) -> f64 {
+    let (mut v, mut e) = (m, e);
+    while e > 1000 { v *= 2f64.powi(1000); e -= 1000; }
+    while e < -1000 { v *= 2f64.powi(-1000); e += 1000; }
+    v * 2f64.powi(e as i32)
+}
+/// x = m * 2^e with an odd (or zero) integer m: ANY finite f64 is spelled exactly as a band entry of base 2
+fn decomp(x: f64) -> (i64, i64) {
+    if x == 0. { return (0, 0) }
+    let bits = x.to_bits();
+    let (neg, ex, frac) = (bits >> 63 == 1, ((bits >> 52) & 0x7ff) as i64, (bits & ((1u64 << 52) - 1)) as i64);
+    let (mut m, mut e) = if ex == 0 { (frac, -1074) } else { (frac | (1i64 << 52), ex - 1075) };
+    while m & 1 == 0 { m >>= 1; e += 1; }
+    (if neg { -m } else { m }, e)
+}
+/// the f64 values of a band array: integer * base^exponent — exact for base 2, correctly rounded decimal for base 10
+fn band(a_s: &str, e_s: &str, base: &str) -> Option<(Vec<usize>, Vec<f64>)> {
+    let (shape, m) = parse_arr_raw(a_s);
+    let (es, e) = parse_arr_raw(e_s);
+    if shape != es || m.len() != e.len() { return None }
+    let vals: Option<Vec<f64>> = m.iter().zip(&e).map(|(&m, &e)| match base {
+        "2" => Some(ldexp(m as f64, e)),
+        "10" => format!("{m}e{e}").parse::<f64>().ok(),
+        _ => None }).collect();
+    Some((shape, vals?))
+}
+fn col_max(n: usize, k: usize, v: &[f64], c: usize) -> f64 { (0..n).fold(0f64, |m, i| m.max(v[i * k + c].abs())) }
+
+/// solve with a band matrix / band right-hand side (well-conditioned by construction, cond_inf <= 1e3): the exact model solution
+/// within 1e-11 of every column's greatest entry, and the residual of the code's own answer at rounding level, column by column
+fn p_solve(args: &[&str], expected: &str) -> Option<Verdict> {
+    let ((ash, av), (bsh, bv)) = (band(args[0], args[1], args[4])?, band(args[2], args[3], args[4])?);
+    let (a, b) = (Array::new(av.clone(), ash.clone()).ok()?, Array::new(bv.clone(), bsh.clone()).ok()?);
+    let real = match std::panic::catch_unwind(std::panic::AssertUnwindSafe(|| a.solve(&b))) { Ok(r) => r, Err(_) => return Some(compare_default("panic".into(), expected)) };
+    if let Some(d) = recv_arr(&real, || { let r: Result<Array<f64>, ArrayError> = Ok(a.clone()); r.solve(&b) }) { return Some(d) }
+    let observed = show_res(&real, show_f);
+    let x = match &real { Err(_) => return Some(compare_default(observed, expected)), Ok(x) => x };
+    if !consistent(x) { return mismatch(observed, "inconsistent array (C01 monitor)".into()) }
+    let Some(body) = expected.strip_prefix("ok ") else { return mismatch(observed, format!("model says `{}`", truncate(expected, 300))) };
+    let (shape, vals) = parse_expected_arr(body)?;
+    let xv = x.get_elements().unwrap();
+    if x.get_shape().unwrap() != shape || xv.len() != vals.len() { return mismatch(observed, format!("shape: model {:?}", shape)) }
+    let n = ash[0];
+    let k = if n == 0 { 0 } else { xv.len() / n };
+    for c in 0..k {
+        let unit = col_max(n, k, &vals, c);
+        for i in 0..n {
+            let (cv, mv) = (xv[i * k + c], vals[i * k + c]);
+            if !((cv - mv).abs() <= 1e-11 * unit) { return mismatch(observed, format!("x[{i}][{c}]: code {cv:e}, exact model {mv:e} (tolerance 1e-11 of the column's greatest entry {unit:e})")) }
+        }
+    }
+    if let Err(d) = residual_cols(n, &av, &xv, &bv, RES_TOL, 0.) { return mismatch(observed, d) }
+    Some(Verdict::Match(observed))
+}
+
+/// det of a band matrix / stack: exact model value within 1e-14 of the product of the absolute row sums (the cofactor expansion adds
+/// products of one entry per row, so its rounding error is a few eps of that product)
+fn p_det(args: &[&str], expected: &str) -> Option<Verdict> {
+    let (shape, av) = band(args[0], args[1], args[2])?;
+    let a = Array::new(av.clone(), shape.clone()).ok()?;
+    let real = match std::panic::catch_unwind(std::panic::AssertUnwindSafe(|| a.det())) { Ok(r) => r, Err(_) => return Some(compare_default("panic".into(), expected)) };
+    if let Some(d) = recv_arr(&real, || { let r: Result<Array<f64>, ArrayError> = Ok(a.clone()); r.det() }) { return Some(d) }
+    let observed = show_res(&real, show_f);
+    let d = match &real { Err(_) => return Some(compare_default(observed, expected)), Ok(d) => d };
+    let Some(body) = expected.strip_prefix("ok ") else { return mismatch(observed, format!("model says `{}`", truncate(expected, 300))) };
+    let (mshape, vals) = parse_expected_arr(body)?;
+    let dv = d.get_elements().unwrap();
+    if d.get_shape().unwrap() != mshape || dv.len() != vals.len() { return mismatch(observed, format!("shape: model {:?}", mshape)) }
+    let n = *shape.last()?;
+    if shape.len() < 2 || n < 2 { return Some(compare_default(observed, expected)) }
+    for (t, (&c, &m)) in dv.iter().zip(&vals).enumerate() {
+        let blk = &av[t * n * n..(t + 1) * n * n];
+        let unit: f64 = (0..n).map(|i| (0..n).map(|j| blk[i * n + j].abs()).sum::<f64>()).product();
+        if !((c - m).abs() <= 1e-14 * unit) { return mismatch(observed, format!("matrix {t}: det {c:e}, exact model {m:e} (tolerance 1e-14 of the product of the row sums {unit:e})")) }
+    }
+    Some(Verdict::Match(observed))
+}
+
+/// qr of a band matrix / stack (columns or blocks of very different magnitude; well-conditioned after the columns are brought to the
+/// same scale): Q against the exact Gram-Schmidt vectors, Q^T Q = I, R upper triangular, Q R = A — every bound RELATIVE TO THE COLUMN
+/// the entry belongs to (1e-12 of n * the column's greatest entry).  When the exponents are constant along every column (base 2) the
+/// factors are also compared with those of the unscaled matrix: the same Q, R with its columns scaled (Gram-Schmidt commutes exactly
+/// with a power-of-two column scaling).
+fn p_qr(args: &[&str], expected: &str) -> Option<Verdict> {
+    const QTOL: f64 = 1e-12;
+    let (shape, av_all) = band(args[0], args[1], args[2])?;
+    let a = Array::new(av_all.clone(), shape.clone()).ok()?;
+    let real = match std::panic::catch_unwind(std::panic::AssertUnwindSafe(|| a.qr())) { Ok(r) => r, Err(_) => return Some(compare_default("panic".into(), expected)) };
+    if let Some(d) = recv_qr(&real, || { let r: Result<Array<f64>, ArrayError> = Ok(a.clone()); r.qr() }) { return Some(d) }
+    let observed = match &real { Ok(v) => format!("ok {} pair(s)", v.len()), Err(e) => format!("err {}", err_name(e)) };
+    let pairs = match &real { Err(_) => return Some(compare_default(observed, expected)), Ok(v) => v };
+    let Some(body) = expected.strip_prefix("ok ") else { return mismatch(observed, format!("model says `{}`", truncate(expected, 200))) };
+    let exp: Vec<&str> = body.split(';').collect();
+    if exp.len() != pairs.len() { return mismatch(observed, format!("model has {} factor pairs", exp.len())) }
+    let n = *shape.last()?;
+    let (_, ints) = parse_arr_raw(args[0]);
+    let (_, exps) = parse_arr_raw(args[1]);
+    let col_const = args[2] == "2" && (0..exps.len()).all(|p| exps[p] == exps[p - (p % (n * n)) + p % n]);
+    let plain = if col_const { Array::new(ints.iter().map(|&x| x as f64).collect::<Vec<f64>>(), shape.clone()).ok().and_then(|p| p.qr().ok()) } else { None };
+    for (t, ((q, r), e)) in pairs.iter().zip(&exp).enumerate() {
+        let parts: Vec<&str> = e.split('|').collect();
+        let rats = |s: &str| -> Option<Vec<f64>> { s.split(',').map(parse_rat).collect() };
+        let (us, nrm2, ru) = (rats(parts[0])?, rats(parts[1])?, rats(parts[2])?);
+        let av = &av_all[t * n * n..(t + 1) * n * n];
+        if nrm2.iter().any(|&x| x == 0.) { return Some(Verdict::Open(observed)) }
+        if q.get_shape().unwrap() != vec![n, n] || r.get_shape().unwrap() != vec![n, n] { return mismatch(observed, format!("pair {t}: shapes {:?} {:?}", q.get_shape(), r.get_shape())) }
+        let (qv, rv) = (q.get_elements().unwrap(), r.get_elements().unwrap());
+        let cs: Vec<f64> = (0..n).map(|c| col_max(n, n, av, c) * n as f64).collect();
+        for i in 0..n { for k in 0..n {
+            let (mq, mr) = (us[k * n + i] / nrm2[k].sqrt(), ru[k * n + i] / nrm2[k].sqrt());
+            if !((qv[i * n + k] - mq).abs() <= QTOL) { return mismatch(observed, format!("pair {t}: Q[{i}][{k}] = {:e}, model {:e}", qv[i * n + k], mq)) }
+            if !((rv[k * n + i] - mr).abs() <= QTOL * cs[i]) { return mismatch(observed, format!("pair {t}: R[{k}][{i}] = {:e}, model {:e} (column scale {:e})", rv[k * n + i], mr, cs[i])) }
+            let qtq: f64 = (0..n).map(|w| qv[w * n + i] * qv[w * n + k]).sum();
+            if !((qtq - if i == k { 1. } else { 0. }).abs() <= QTOL) { return mismatch(observed, format!("pair {t}: (Q^T Q)[{i}][{k}] = {qtq:e}")) }
+            if i > k && !(rv[i * n + k].abs() <= QTOL * cs[k]) { return mismatch(observed, format!("pair {t}: R[{i}][{k}] = {:e} below the diagonal (column scale {:e})", rv[i * n + k], cs[k])) }
+            let qr: f64 = (0..n).map(|w| qv[i * n + w] * rv[w * n + k]).sum();
+            if !((qr - av[i * n + k]).abs() <= QTOL * cs[k]) { return mismatch(observed, format!("pair {t}: (Q R)[{i}][{k}] = {qr:e}, A = {:e}", av[i * n + k])) }
+        } }
+        if let Some(pl) = &plain {
+            let (q0, r0) = (pl[t].0.get_elements().unwrap(), pl[t].1.get_elements().unwrap());
+            for i in 0..n { for k in 0..n {
+                if !((qv[i * n + k] - q0[i * n + k]).abs() <= 1e-13) { return mismatch(observed, format!("pair {t}: Q[{i}][{k}] = {:e}, but {:e} for the same matrix without the power-of-two column scales", qv[i * n + k], q0[i * n + k])) }
+                let want = ldexp(r0[i * n + k], exps[t * n * n + k]);
+                if !((rv[i * n + k] - want).abs() <= 1e-13 * cs[k]) { return mismatch(observed, format!("pair {t}: R[{i}][{k}] = {:e}, but {want:e} = 2^e * R of the matrix without the column scales", rv[i * n + k])) }
+            } }
+        }
+    }
+    Some(Verdict::Match(observed))
+}
+
+/// norm of a band array (entries of very different magnitude; any finite f64 can be spelled, so also the mathematical constants, powers
+/// of two with their neighbours, subnormals): the model's exact value within 1e-12 of ITSELF (every norm is a sum of non-negative
+/// terms - no cancellation), counts / maxima / minima exactly; vectors additionally against the definitions evaluated here
+fn p_norm(args: &[&str], expected: &str) -> Option<Verdict> {
+    let (shape, av) = band(args[0], args[1], args[2])?;
+    let a = Array::new(av.clone(), shape.clone()).ok()?;
+    let (o, ax, kp) = (args[3], args[4], args[5]);
+    let axis: Option<Vec<isize>> = if ax == "none" { None } else { Some(parse_isize_list(ax)) };
+    let keep: Option<bool> = match kp { "none" => None, "true" => Some(true), "false" => Some(false), _ => return None };
+    let real = match std::panic::catch_unwind(std::panic::AssertUnwindSafe(|| call_norm(&a, o, &axis, keep))) { Ok(r) => r, Err(_) => return Some(compare_default("panic".into(), expected)) };
+    if let Some(d) = recv_arr(&real, || { let r: Result<Array<f64>, ArrayError> = Ok(a.clone()); call_norm(&r, o, &axis, keep) }) { return Some(d) }
+    let observed = show_res(&real, show_f);
+    let r = match &real { Err(_) => return Some(compare_default(observed, expected)), Ok(r) => r };
+    if !consistent(r) { return mismatch(observed, "inconsistent array (C01 monitor)".into()) }
+    let Some(body) = expected.strip_prefix("ok ") else { return mismatch(observed, format!("model says `{}`", truncate(expected, 300))) };
+    let (sh, el) = body.split_once(':')?;
+    let vals: Vec<(f64, bool)> = if el == "-" { vec![] } else { el.split(',').map(sym_val).collect::<Option<Vec<_>>>()? };
+    let re = r.get_elements().unwrap();
+    if r.get_shape().unwrap() != parse_usize_list(sh) || re.len() != vals.len() { return mismatch(observed, format!("shape: model {sh}")) }
+    // (one unit of the subnormal grid where the value itself is subnormal)
+    let rel = |c: f64, m: f64| (c - m).abs() <= 1e-12 * m.abs() + if m.abs() < 1e-300 { 5e-324 } else { 0. };
+    for (p, (&c, &(m, _))) in re.iter().zip(&vals).enumerate() {
+        if !rel(c, m) { return mismatch(observed, format!("element {p}: code {c:e}, model {m:e} (relative tolerance 1e-12)")) }
+    }
+    if shape.len() == 1 && ax == "none" && re.len() == 1 {
+        let p: Option<i32> = match o { "none" => Some(2), "inf" | "ninf" | "fro" | "nuc" => None, _ => o.strip_prefix('i').and_then(|t| t.parse().ok()) };
+        let abs = || av.iter().map(|x| x.abs());
+        let want = match (o, p) {
+            ("inf", _) => Some(abs().fold(0., f64::max)), ("ninf", _) => Some(abs().fold(f64::INFINITY, f64::min)),
+            (_, Some(0)) => Some(av.iter().filter(|&&x| x != 0.).count() as f64),
+            (_, Some(1)) => Some(abs().sum::<f64>()),
+            (_, Some(2)) => Some(av.iter().map(|x| x * x).sum::<f64>().sqrt()),
+            (_, Some(p)) => Some(abs().map(|x| x.powi(p)).sum::<f64>().powf(1. / p as f64)),
+            _ => None };
+        if let Some(w) = want { if !rel(re[0], w) { return mismatch(observed, format!("definition gives {w:e}")) } }
+    }
+    Some(Verdict::Match(observed))
 }
 
 fn exec_x(op: &str, args: &[&str], expected: &str) -> Option<Verdict> {
@@ -1267,6 +1714,10 @@ fn exec_case(op: &str, args: &[&str], expected: &str) -> Option<Verdict> {
         "norm" => exec_norm(args, expected),
         "qr" => exec_qr(args, expected),
         "xdet" | "xsolve" | "xnorm" | "xqr" => exec_x(op, args, expected),
+        "psolve" if args.len() == 5 => p_solve(args, expected),
+        "pdet" if args.len() == 3 => p_det(args, expected),
+        "pqr" if args.len() == 3 => p_qr(args, expected),
+        "pnorm" if args.len() == 6 => p_norm(args, expected),
         _ => None,
     }
 }
@@ -1276,14 +1727,15 @@ fn exec_case(op: &str, args: &[&str], expected: &str) -> Option<Verdict> {
 fn nontrivial(op: &str, args: &[&str]) -> bool {
     let (shape, e) = parse_arr_raw(args[0]);
     match op {
-        "solve" | "xsolve" => {
+        "solve" | "xsolve" | "psolve" => {
             if shape.len() != 2 || shape[0] != shape[1] { return false }
             let n = shape[0];
             let exch = (1..n).any(|i| e[i * n].abs() > e[0].abs());
-            let (bs, _) = parse_arr_raw(args[1]);
+            let (bs, _) = parse_arr_raw(args[if op == "psolve" { 2 } else { 1 }]);
             exch || (bs.len() >= 2 && bs[1] >= 2)
         }
         "norm" | "xnorm" => shape.len() >= 2 || args[1] != "none" || args[2] != "none",
+        "pnorm" => shape.len() >= 2 || args[3] != "none" || args[4] != "none",
         _ => shape.len() >= 3 || shape.iter().all(|&d| d >= 3),
     }
 }
